@@ -14,6 +14,7 @@ import (
 func init() {
 	register(&Property{
 		ID:      "C19",
+		NeedGen: true,
 		Runtime: []string{"./plugin/resolvergen", "./internal/rewrite"},
 		Run:     runC19,
 		Explanation: "The bookkeeping that decides which user code is carried over by resolver regeneration (narrow, structural): (remaining-exhaustive) in Rewriter.RemainingSource a declaration of the requested file is skipped " +
@@ -44,6 +45,7 @@ func runC19(c *Ctx) {
 	c17AliasUnique(c)
 	// what the template emits itself is not reported to the user as code about to be deleted (C18)
 	c18EmittedDeclsMarked(c)
+	c17Materialise(c)
 }
 
 func isCopiedLookup(v ssa.Value) bool {
